@@ -98,6 +98,7 @@ def build_group(G, bdir, log):
     cfg.field_alias = dict(G.get('field_alias', {}))
     cfg.scalar_records = dict(G.get('scalar_records', {}))
     cfg.outside_funcs = dict(G.get('outside_funcs', {}))
+    cfg.address_model = bool(G.get('address_model', False))
     cfg.extra_structs = {cxx2c.norm_name(a): b for a, b in G.get('extra_structs', {}).items()}
     cfg.trivial_copy = set(cxx2c.norm_name(x) for x in G.get('trivial_copy', ()))
     cfg.type_aliases = {cxx2c.norm_name(a): b for a, b in G.get('type_aliases', {}).items()}
